@@ -10,7 +10,15 @@ const ADV01: [u64; 2] = [0, 1];
 const ADV1: [u64; 1] = [1];
 
 fn exh(depth: usize, advances: &'static [u64], modifies: bool, toggle: bool) -> ExhCfg {
-    ExhCfg { depth, advances, modifies, toggle, redundant_place: false, prices: [100, 101, 102], vols: [1, 2], tick: 1, levels: 3 }
+    ExhCfg { depth, advances, modifies, toggle, redundant_place: false, prices: [100, 101, 102], vols: [1, 2], tick: 1, levels: 3, creates: false, t0: 10 }
+}
+
+/// alphabet that also enumerates limit orders created but not placed (status New), placed later by `Place(k)`
+fn exh_new(depth: usize, advances: &'static [u64], modifies: bool, toggle: bool, t0: u64) -> ExhCfg {
+    let mut e = exh(depth, advances, modifies, toggle);
+    e.creates = true;
+    e.t0 = t0;
+    e
 }
 
 pub fn valid_history_assumptions() -> Vec<String> {
@@ -37,8 +45,8 @@ pub fn c01(ctx: &Ctx) -> i32 {
         mons: M_REF,
         policy: TiePolicy::StopOnTie,
         exh: match ctx.tier {
-            Tier::Quick => vec![exh(4, &ADV01, false, false), exh(5, &ADV1, false, false)],
-            Tier::Thorough => vec![exh(5, &ADV01, false, false), exh(6, &ADV1, false, false), { let mut e = exh(5, &ADV1, false, false); e.tick = 5; e.prices = [500, 505, 510]; e }],
+            Tier::Quick => vec![exh(4, &ADV01, false, false), exh(5, &ADV1, false, false), exh_new(3, &ADV01, false, false, 0), exh_new(4, &ADV1, false, false, 0)],
+            Tier::Thorough => vec![exh(5, &ADV01, false, false), exh(6, &ADV1, false, false), { let mut e = exh(5, &ADV1, false, false); e.tick = 5; e.prices = [500, 505, 510]; e }, exh_new(4, &ADV01, false, false, 0), exh_new(5, &ADV1, false, false, 0)],
         },
         rnd: vec![(rnd, ctx.tier.pick(20_000, 300_000)), (rnd_deep, ctx.tier.pick(2000, 40_000))],
         nontrivial: |c| c.trades > 0 && c.tie_insertions == 0,
@@ -117,8 +125,8 @@ pub fn c02(ctx: &Ctx) -> i32 {
         mons: M_VIEWS,
         policy: TiePolicy::StopOnTie,
         exh: match ctx.tier {
-            Tier::Quick => vec![exh(4, &ADV1, true, true), exh(5, &ADV1, false, true)],
-            Tier::Thorough => vec![exh(5, &ADV1, true, true), exh(6, &ADV1, false, true)],
+            Tier::Quick => vec![exh(4, &ADV1, true, true), exh(5, &ADV1, false, true), exh_new(3, &ADV1, true, true, 0)],
+            Tier::Thorough => vec![exh(5, &ADV1, true, true), exh(6, &ADV1, false, true), exh_new(4, &ADV1, true, true, 0)],
         },
         rnd: vec![(full, ctx.tier.pick(20_000, 300_000)), (narrow, ctx.tier.pick(4000, 60_000))],
         nontrivial: |c| c.max_resting > 0 && c.states_checked > 0,
@@ -202,8 +210,8 @@ pub fn c03(ctx: &Ctx) -> i32 {
         mons: M_LEDGER,
         policy: TiePolicy::StopOnTie,
         exh: match ctx.tier {
-            Tier::Quick => vec![exh(4, &ADV1, true, true), exh(4, &ADV01, false, false)],
-            Tier::Thorough => vec![exh(5, &ADV1, true, true), exh(5, &ADV01, false, false)],
+            Tier::Quick => vec![exh(4, &ADV1, true, true), exh(4, &ADV01, false, false), exh_new(3, &ADV1, true, false, 0)],
+            Tier::Thorough => vec![exh(5, &ADV1, true, true), exh(5, &ADV01, false, false), exh_new(4, &ADV1, true, false, 0)],
         },
         rnd: vec![(full, ctx.tier.pick(20_000, 300_000))],
         nontrivial: |c| c.trades > 0,
@@ -244,8 +252,8 @@ pub fn c04(ctx: &Ctx) -> i32 {
         mons: M_LIFE | M_JSON_NOOP,
         policy: TiePolicy::Any,
         exh: match ctx.tier {
-            Tier::Quick => vec![e3, e4],
-            Tier::Thorough => vec![e4m, e5],
+            Tier::Quick => vec![e3, e4, exh_new(3, &ADV01, true, true, 0), exh_new(4, &ADV1, false, true, 0)],
+            Tier::Thorough => vec![e4m, e5, exh_new(4, &ADV01, true, true, 0), exh_new(5, &ADV1, false, true, 0)],
         },
         rnd: vec![(p, ctx.tier.pick(15_000, 250_000))],
         nontrivial: |c| c.redundant_requests > 0 && (c.cancels_effective > 0 || c.trades > 0 || c.market_rejected > 0),
@@ -275,8 +283,8 @@ pub fn c05_book_spec(tier: Tier) -> BookSpec {
         mons: M_ALL_BOOK | M_RELOAD,
         policy: TiePolicy::JudgeFromTie,
         exh: match tier {
-            Tier::Quick => vec![exh(4, &ADV01, false, false), exh(3, &ADV01, true, false)],
-            Tier::Thorough => vec![exh(5, &ADV01, false, false), exh(4, &ADV01, true, true)],
+            Tier::Quick => vec![exh(4, &ADV01, false, false), exh(3, &ADV01, true, false), exh_new(3, &ADV01, true, false, 0)],
+            Tier::Thorough => vec![exh(5, &ADV01, false, false), exh(4, &ADV01, true, true), exh_new(4, &ADV01, true, false, 0)],
         },
         rnd: vec![(p, tier.pick(10_000, 200_000))],
         nontrivial: |c| c.tie_insertions > 0,
@@ -295,8 +303,8 @@ pub fn c06(ctx: &Ctx) -> i32 {
         mons: M_REF | M_MODIFY,
         policy: TiePolicy::StopOnTie,
         exh: match ctx.tier {
-            Tier::Quick => vec![exh(4, &ADV1, true, false)],
-            Tier::Thorough => vec![exh(5, &ADV1, true, false)],
+            Tier::Quick => vec![exh(4, &ADV1, true, false), exh_new(3, &ADV1, true, false, 0)],
+            Tier::Thorough => vec![exh(5, &ADV1, true, false), exh_new(4, &ADV1, true, false, 0)],
         },
         rnd: vec![(p, ctx.tier.pick(15_000, 250_000))],
         nontrivial: |c| c.modifies_effective > 0 && c.tie_insertions == 0,
